@@ -72,7 +72,7 @@ func evalMSL(t *testing.T, decls, pre string, exprs []string) ([]uint32, *RunRes
 	t.Helper()
 	src := mslExprShader(decls, pre, exprs)
 	p := mustParseMSL(t, src)
-	out := zeros(4 * len(exprs))
+	out := zeros(4 * (len(exprs) + 32))
 	res := runMSL(t, p, RunConfig{Buffers: map[Slot][]byte{{Class: 'b', Index: 0}: out, {Class: 'b', Index: 1}: stdInputBuf()}})
 	return words32(out), res
 }
